@@ -949,18 +949,20 @@ func c19RoundTrips(c *Ctx) {
 			// SortStableFunc failing for ONE element) surfaces as the error of the outer call
 			var sortErrs []int64
 			if err == nil {
-				_, err = vm2.Eval(fstest.MapFS{}, "srt.go", "import \"golang.org/x/exp/slices\"\nfunc lessBut3(a, b int) bool {\n\tif a == 3 || b == 3 {\n\t\tpanic(\"three\")\n\t}\n\treturn a < b\n}\nfunc sortA(bad bool) int {\n\txs := []int{5, 3, 1, 4, 2, 6, 7, 8, 9, 0}\n\tif !bad {\n\t\txs[1] = 33\n\t}\n\tslices.SortFunc(xs, lessBut3)\n\treturn xs[0]\n}\nfunc sortB(bad bool) int {\n\txs := []int{5, 3, 1, 4, 2, 6, 7, 8, 9, 0}\n\tif !bad {\n\t\txs[1] = 33\n\t}\n\tslices.SortStableFunc(xs, lessBut3)\n\treturn xs[0]\n}\n")
+				_, err = vm2.Eval(fstest.MapFS{}, "srt.go", "import \"golang.org/x/exp/slices\"\nfunc lessBut3(a, b int) bool {\n\tif a == 3 || b == 3 {\n\t\tpanic(\"three\")\n\t}\n\treturn a < b\n}\nfunc sortA(pos int) int {\n\txs := []int{15, 11, 14, 10, 13, 12, 17, 16}\n\tif pos >= 0 {\n\t\txs[pos] = 3\n\t}\n\tslices.SortFunc(xs, lessBut3)\n\treturn xs[0]\n}\nfunc sortB(pos int) int {\n\txs := []int{15, 11, 14, 10, 13, 12, 17, 16}\n\tif pos >= 0 {\n\t\txs[pos] = 3\n\t}\n\tslices.SortStableFunc(xs, lessBut3)\n\treturn xs[0]\n}\n")
+				// the failing element at every position of the slice (the failing comparison is then the first, a middle or
+				// the last one the sort makes), and not at all
 				for _, fn := range []string{"main.sortA", "main.sortB"} {
-					for _, bad := range []bool{true, false} {
+					for pos := -1; pos < 8; pos++ {
 						if err == nil {
-							_, e := vm2.Call(fn, 1, goat.Bool(bad))
+							_, e := vm2.Call(fn, 1, goat.Int(pos))
 							sortErrs = append(sortErrs, b2i(e != nil))
 						}
 					}
 				}
 			}
 			if err == nil {
-				ids = append(ids, map[string]any{"kind": "Call.errorFromCallback", "x": []int64{1, 0, 1, 0}, "got": sortErrs})
+				ids = append(ids, map[string]any{"kind": "Call.errorFromCallback", "x": []int64{0, 1, 1, 1, 1, 1, 1, 1, 1, 0, 1, 1, 1, 1, 1, 1, 1, 1}, "got": sortErrs})
 			}
 			// nil-ness of what a script hands to the host: nil slices, maps, references and functions are nil, made ones are not
 			var nils []int64
